@@ -1217,6 +1217,55 @@ fn probe(args: &[String], seed: u64) -> Result<(), Box<dyn std::error::Error>> {
                 for f in fs { println!("   {} :: {}\n        {}", f.signature, f.what, short(&f.first_difference)); }
             }
         }
+        "contracts" => {
+            // self-test of the hand-assembled contracts: every action, checked through the RPC surface
+            use alloy::primitives::U256;
+            let mut run = Run::new();
+            let ts = TS0 + 1;
+            let mut k = 0;
+            let mut call = |run: &mut Run, data: Vec<u8>, bl: u64| -> Value {
+                k += 1;
+                let op = Op::Call { from_pkscript: PKSCRIPTS[0].into(), to: To::ByInscription("tooli0".into()), data: Hx(data), enc: Enc::Base64, tail: t_tail(ts, &format!("c{}i0", k), bl) };
+                run.step(&op).result.clone()
+            };
+            run.step(&t_init());
+            let dep = run.step(&Op::Deploy { from_pkscript: PKSCRIPTS[0].into(), data: Hx(multitool_init()), enc: Enc::Base64Packed, tail: t_tail(ts, "tooli0", 2000) }).result.clone();
+            let tool = dep["contractAddress"].as_str().unwrap_or("").to_string();
+            let tool_addr = Hx::from_hex(&tool).to_address();
+            println!("deploy status {} tool {} gas {}", dep["status"], tool, dep["gasUsed"]);
+            let predicted = format!("0x{}", hex::encode(pkscript_address(PKSCRIPTS[0]).create(0)));
+            println!("predicted address {} {}", predicted, if predicted == tool { "ok" } else { "MISMATCH" });
+            let r = call(&mut run, cd::sstore(U256::from(7), U256::from(99)), 2000); println!("sstore status {}", r["status"]);
+            let r = call(&mut run, cd::log(&[U256::from(70), U256::from(71), U256::from(72)], U256::from(5)), 2000); println!("log3 status {} topics {} data {}", r["status"], r["logs"][0]["topics"], r["logs"][0]["data"]);
+            let r = call(&mut run, cd::log(&[], U256::from(6)), 2000); println!("log0 status {} logs {}", r["status"], r["logs"].as_array().map(|a| a.len()).unwrap_or(0));
+            let r = call(&mut run, cd::revert(), 2000); println!("revert status {}", r["status"]);
+            let r = call(&mut run, cd::spin(), 100); println!("spin status {} gasUsed {}", r["status"], r["gasUsed"]);
+            let r = call(&mut run, cd::create(), 2000); println!("create status {}", r["status"]);
+            let r = call(&mut run, cd::context(), 2000); println!("context status {} gasUsed {}", r["status"], r["gasUsed"]);
+            let r = call(&mut run, cd::call(tool_addr, &cd::sstore(U256::from(8), U256::from(55))), 2000); println!("call->sstore status {}", r["status"]);
+            let r = call(&mut run, cd::call(tool_addr, &cd::revert()), 2000); println!("call->revert status {} (bubbled)", r["status"]);
+            let r = call(&mut run, cd::selfdestruct(), 2000); println!("selfdestruct status {}", r["status"]);
+            run.step(&t_fin(ts));
+            let mut slot = |run: &mut Run, k: u64| run.inst.rpc("eth_getStorageAt", json!([tool, format!("0x{:x}", k)])).unwrap_or(json!("err"));
+            println!("slot 7 = {}", slot(&mut run, 7));
+            println!("slot 8 = {}", slot(&mut run, 8));
+            let child = slot(&mut run, SLOT_CHILD);
+            println!("child (slot 0xc0) = {}; expected {}", child, hex::encode(tool_addr.create(1)));
+            let child_addr = format!("0x{}", &child.as_str().unwrap_or("")[26..]);
+            println!("child code = {}", run.inst.rpc("eth_getCode", json!([child_addr])).unwrap_or(json!("err")));
+            let names = ["NUMBER", "TIMESTAMP", "PREVRANDAO", "CHAINID", "BASEFEE", "GASPRICE", "COINBASE", "CALLER", "ORIGIN", "BLOCKHASH(n-1)", "BLOCKHASH(n-2)", "op_return_tx_id"];
+            for (i, n) in names.iter().enumerate() { println!("ctx {:<16} = {}", n, slot(&mut run, SLOT_CTX + i as u64)); }
+            let r = run.inst.rpc("eth_call", json!([{"to": tool, "data": format!("0x{}", hex::encode(cd::sload(U256::from(7))))}, null]));
+            println!("eth_call sload(7) = {:?}", r);
+            let r = run.inst.rpc("eth_call", json!([{"to": child_addr, "data": "0x"}, null]));
+            println!("eth_call child = {:?}", r);
+            println!("code after selfdestruct (kept since Cancun) len = {}", run.inst.rpc("eth_getCode", json!([tool])).ok().and_then(|v| v.as_str().map(|s| s.len())).unwrap_or(0));
+            println!("reverting init: {}", run.step(&Op::Deploy { from_pkscript: PKSCRIPTS[1].into(), data: Hx(init_reverting()), enc: Enc::Hex, tail: t_tail(ts + 1, "revi0", 2000) }).result["status"]);
+            println!("garbage init: {}", run.step(&Op::Deploy { from_pkscript: PKSCRIPTS[1].into(), data: Hx(init_garbage()), enc: Enc::Hex, tail: t_tail(ts + 1, "garbi0", 2000) }).result["status"]);
+            let raw = sign_legacy(0, 0, None, multitool_init(), CHAIN_ID);
+            let r = run.step(&Op::Transact { raw_tx: Hx(raw), enc: Enc::Hex, tail: t_tail(ts + 1, "sgni0", 2000) }).result.clone();
+            println!("signed deploy: status {} from {} expected signer {}", r[0]["status"], r[0]["from"], hex::encode(signer_address(0)));
+        }
         "verify" => {
             let name = arg(args, "--name").unwrap_or_default();
             let then: Vec<String> = arg(args, "--then").map(|s| s.split(',').map(|x| x.to_string()).collect()).unwrap_or_default();
